@@ -697,7 +697,7 @@ class Fn:
     def __init__(self, file, anchor, proto, contract='', loops=None, subst=(), ordinal=0,
                  nmatches=None, skip=(), pre='', post='', block_end=None, signal_points=False,
                  label=None, inst=None, wrap_body=True, expect_fired=None, drop_init=False, defines=None,
-                 one_iteration=None, index_calls=None):
+                 one_iteration=None, index_calls=None, refs=None):
         self.file = file
         self.anchor = anchor
         self.proto = proto
@@ -719,6 +719,7 @@ class Fn:
         self.defines = defines or {}
         self.one_iteration = one_iteration
         self.index_calls = index_calls or {}
+        self.refs = refs or {}     # R16: C++ reference parameters: name -> pointer parameter of the C prototype
         self.info = None
 
     def cname(self):
@@ -772,8 +773,24 @@ class Fn:
             body = '{ ' + self.pre + ' ' + body[1:]
         if self.post:
             body = body[:-1] + ' ' + self.post + ' }'
-        defs = ''.join('#define %s %s\n' % kv for kv in self.defines.items())      # R16: reference parameters
-        undefs = ''.join('#undef %s\n' % k for k in self.defines)
+        # R16: a reference parameter `T& x` is read from the REAL signature: by reference -> `#define x (*x_p)`;
+        # if the source (no longer) takes it by reference the body works on a copy, exactly as the C++ would
+        ref_defs = {}
+        ref_copies = ''
+        for nm, ptr in self.refs.items():
+            if re.search(r'&\s*%s\b' % re.escape(nm), ex.signature):
+                ref_defs[nm] = '(*%s)' % ptr
+            elif re.search(r'\b%s\b' % re.escape(nm), ex.signature):
+                ref_copies += '__auto_type %s = *%s; ' % (nm, ptr)
+                rules._count('R16-by-value', 1)
+            else:
+                raise ExtractionError("%s: parameter %s not found in signature %r" % (self.cname(), nm, ' '.join(ex.signature.split())))
+        if ref_copies:
+            body = '{ ' + ref_copies + body[1:]
+        alldefs = dict(self.defines)
+        alldefs.update(ref_defs)
+        defs = ''.join('#define %s %s\n' % kv for kv in alldefs.items())
+        undefs = ''.join('#undef %s\n' % k for k in alldefs)
         text = '#line %d "%s"\n%s\n%s\n%s#line %d "%s"\n%s\n%s' % (
             ex.sig_line, os.path.join(REPO, ex.file), self.proto,
             ' '.join(self.contract.split()), defs,
